@@ -8,6 +8,7 @@
   The theorems below hold for EVERY heap, so they do not depend on that transcription being the right one.
 -/
 import Proofs.CloseProofs
+import Proofs.CloseTransitive
 namespace Pyctr.C16
 open Pyctr Pyctr.Close
 
@@ -37,6 +38,16 @@ theorem C16_complete (n : Nat) (H : Heap) (r : Nat) (o : Obj) (hr : H[r]? = some
     (hfresh : (o.closeOnce && o.closed) = false) (hfl : (flushStep (n + 1) H o).1 = false) (t : Nat) (ht : t ∈ o.tracked)
     (hlt : t < H.length) : closedAt (closeObj (n + 2) H r) t :=
   close_closes_tracked n H r o hr hfresh hfl t ht hlt
+
+/-- **complete at every level**: in an acyclic close graph (a ranking `rk` strictly decreasing along "owns when closefd" and
+    "tracks" edges) without flushing wrappers, with fuel above the object's rank, `close()` leaves EVERYTHING below the object
+    closed — handles of nested readers of nested readers included — provided readers below it that were closed earlier had
+    everything below them closed; and `close()` maintains that proviso (second conclusion), so it holds along any history of
+    closes starting from a world where no reader is closed (`goodOn_fresh`) -/
+theorem C16_complete_all_levels (rk : Nat → Nat) (n : Nat) (H : Heap) (i : Nat) (hr : Ranked rk H) (hn : NoFlush H)
+    (hfuel : rk i < n) (hgood : GoodOn H i) :
+    (∀ j, Desc H i j → closedAt (closeObj n H i) j) ∧ GoodOn (closeObj n H i) i :=
+  close_all_below rk n H i hr hn hfuel hgood
 
 /-- **idempotent**: closing a reader twice is the same as closing it once -/
 theorem C16_idempotent (n m : Nat) (H : Heap) (r : Nat) (o : Obj) (hr : H[r]? = some o) (hco : o.closeOnce = true) :
@@ -72,5 +83,17 @@ example : exId "h1" ∉ reach 12 exWorld.heap (exId "h0") ∧ exId "r" ∉ reach
     exId "f" ∉ reach 12 exWorld.heap (exId "h0") := by decide
 /-- after the reader is closed, a position-only call on the nested reader's handle raises -/
 example : (ioObj 12 (closeObj 12 exWorld.heap (exId "r")) (exId "h1") .tell).1 = true := by decide
+
+/-- the transcribed NCCH world meets the side conditions of `C16_complete_all_levels` (ranks = depth in the close graph) … -/
+def exRank (i : Nat) : Nat := [1, 3, 1, 2, 1, 1, 1, 1, 1, 1, 1, 2, 2, 1, 2, 1, 1, 2, 1].getD i 0
+example : rankedB exRank exWorld.heap = true ∧ noFlushB exWorld.heap = true ∧ freshB exWorld.heap = true := by decide
+/-- … so closing the reader closes the handle of its nested ExeFS reader (two levels down) -/
+example : closedAt (closeObj 12 exWorld.heap (exId "r")) (exId "h1") :=
+  (C16_complete_all_levels exRank 12 exWorld.heap (exId "r") (ranked_of_b _ _ (by decide)) (noFlush_of_b _ (by decide))
+    (by decide) (fresh_of_b _ (by decide) _)).1 (exId "h1") (by
+      -- r tracks the nested ExeFS reader, which tracks h1
+      have h1 : exWorld.heap[exId "r"]? = some (exWorld.heap[exId "r"]'(by decide)) := List.getElem?_eq_getElem _
+      have h2 : exWorld.heap[12]? = some (exWorld.heap[12]'(by decide)) := List.getElem?_eq_getElem _
+      exact Desc.step h1 (by decide) (Desc.step h2 (by decide) (Desc.refl _)))
 
 end Pyctr.C16
